@@ -53,6 +53,10 @@ CLAIMED = {
    text="One generated pipeline value (every operator incl. wrapping in retry) over hot sources with per-subscription scripts, cold sources and creation functions is subscribed 2..3 times: sequentially, interleaved (the second subscription starts while the first is mid-stream), and nested from inside a callback. Self-differential oracle: subscriber k's record equals its record when the same AST is built afresh and subscribed once, driven by the same steps; tap side-effect counters equal the sum of the solo runs.",
    technique='deterministic simulation (single driver task): interleaved sessions sharing one object, self-differential oracle against fresh solo runs',
    note="No reference semantics are assumed: the reference is the crate itself on a fresh pipeline. Sampling, not enumeration."),
+ 'C10': dict(level='exploration', design='5.10',
+   text="Generated call histories (length <= 8 quick / 12 thorough) over {subscribe_i, unsubscribe_i, next(v), error, complete} with up to 3 observers (attached directly, through map, through take(1|2)) on each of the four subject types, including misuse (subscribe after a terminal, double unsubscribe, calls after a terminal), with the HashMap iteration order perturbed. Oracle: a reference state machine that reads the statement literally; after the run every observer's record equals the model's and after every step the subject's registered-observer count equals the model's live set. Where the statement is silent only weak invariants are asserted.",
+   technique='deterministic simulation (single task): generated operation histories incl. misuse + hash-order fault, checked step by step against an executable reference model',
+   note="The reference model is ~150 lines in harness/src/c10.rs. Sampling of the history space; a clean batch is evidence, not proof."),
  # -- more claimed
 }
 NA = {
